@@ -71,6 +71,7 @@ fn c02_effective_name_with_non_ascii_version() {
 //      the linker's inaccessible reserved gap after / between parts of an executable file mapping)
 //   P5 the non-path line that starts at the vDSO address is named linux-gate.so
 //   P7 kernel-reported range = [start, end of the last non-gap line); P8 permissions = union over the same lines
+//   P9 offset = offset of the first line; P10 same-file contiguous lines (also around one empty page) ARE merged
 //   P6 a derived mapping carries the mapped path of its first line without the " (deleted)" marker
 // ---------------------------------------------------------------------------
 #[derive(Clone, Copy, PartialEq, Debug)]
@@ -177,6 +178,33 @@ fn check_map(lines: &[Line], gate: Option<usize>, n_eval: &mut usize) -> std::re
         let want = counted.iter().fold(0u8, |a, l| a | bits(l));
         if m.permissions.bits() != want {
             return Err(format!("P8 permissions of the mapping at {:x} are {:#x}, expected the union {:#x} of its lines", m.start_address, m.permissions.bits(), want));
+        }
+    }
+    // P9: a derived mapping keeps the file offset of its first line (0 for the renamed vDSO line)
+    for (i, m) in out.iter().enumerate() {
+        let first = lines.iter().zip(&owner).find(|(_, o)| **o == i).map(|(l, _)| l).unwrap();
+        let is_gate = gate == Some(first.start) && !NAMES[first.name].contains('/');
+        let want = if is_gate { 0 } else { first.offset };
+        if m.offset != want {
+            return Err(format!("P9 the mapping at {:x} has offset {:#x}, its first line {:#x} (vDSO: {is_gate})", m.start_address, m.offset, first.offset));
+        }
+    }
+    // P10 (C08 "base and size are the merged extent of that file's mappings"): merging MUST happen for two contiguous
+    // lines that carry the same path, also across one anonymous inaccessible offset-0 page between them
+    for k in 1..lines.len() {
+        let (a, b) = (&lines[k - 1], &lines[k]);
+        let path = |l: &Line| sanitized(l.name).filter(|n| n.contains('/'));
+        // (an inaccessible offset-0 line directly after ANOTHER file's executable mapping is taken for that file's reserved gap,
+        //  whatever it is called: not demanded here)
+        if a.end == b.start && path(a).is_some() && path(a) == path(b) && !inaccessible(a) && gate != Some(b.start) && owner[k - 1] != owner[k] {
+            return Err(format!("P10 contiguous lines {} and {k} of the same file are not merged", k - 1));
+        }
+        if k >= 2 {
+            let z = &lines[k - 2];
+            if z.end == a.start && a.end == b.start && path(z).is_some() && path(z) == path(b) && sanitized(a.name).is_none()
+                && inaccessible(a) && a.offset == 0 && gate != Some(a.start) && gate != Some(b.start) && owner[k - 2] != owner[k] {
+                return Err(format!("P10 lines {} and {k} of the same file around an empty page are not merged", k - 2));
+            }
         }
     }
     // P5
